@@ -175,7 +175,7 @@ impl WorldC {
         }
         for id in &netcode_ids {
             if let Some(j) = self.slot_of_id(*id) {
-                if self.transport.client_addr(*id) != Some(self.slots[j].addr) {
+                if !self.slots[j].tainted && self.transport.client_addr(*id) != Some(self.slots[j].addr) {
                     obs.violate("C20", "client-address-mismatch", "client_addr", format!("id {}", id));
                 }
             }
@@ -531,6 +531,30 @@ impl WorldC {
                     obs.count("fault.client_crash");
                 }
             }
+            K_REJOIN => {
+                // a crashed client comes back from another address under the same identity; whatever its old socket sent may
+                // still be in flight, and the server may still hold its old session or half-open entry
+                let donor = op.a as usize % ns;
+                let taker = op.b as usize % ns;
+                let id = self.slots[donor].id;
+                if donor == taker || id == 0 || self.slots[donor].client.is_some() {
+                    return;
+                }
+                if self.slots[taker].client.is_some() {
+                    obs.count("fault.client_crash_restart");
+                }
+                obs.count("fault.rejoin_from_other_address");
+                let interference = self.transport.client_addr(id).is_some() || !self.slots[donor].to_server.is_empty() || !self.slots[donor].to_client.is_empty();
+                self.slots[donor].id = 0;
+                self.new_client_as(taker, Some(id));
+                // events, messages and addresses of the old session (or of a half-open entry, or of datagrams still waiting in
+                // a socket) are indistinguishable from the new one's by id: the per-slot clauses are not judged for this
+                // identity, the global lock-step clauses (same clients in both layers, counts, events) still are
+                self.slots[taker].tainted = true;
+                if interference {
+                    obs.count("probe.rejoin_while_old_session_or_datagrams_alive");
+                }
+            }
             K_MUTATE => {
                 let j = op.a as usize % ns;
                 let dir = (op.b % 2) as usize;
@@ -622,6 +646,12 @@ impl WorldC {
             w[13] = 1;
         }
         let dt_menu = [0u64, 16, 16, 16, 33, 50, 100, 100, 250, 250, 500, 1000];
+        if ns > 1 && rng.chance(1, 10) {
+            if let Some(donor) = (0..ns as usize).find(|&k| self.slots[k].client.is_none() && self.slots[k].id != 0) {
+                let taker = (donor + 1 + rng.below(ns - 1) as usize) % ns as usize;
+                return Op::new(K_REJOIN, donor as u64, taker as u64, 0, 0);
+            }
+        }
         match rng.weighted(&w) {
             0 => Op::new(K_TICKCLIENT, j as u64, *rng.pick(&dt_menu), 0, 0),
             1 => Op::new(K_TICKSERVER, *rng.pick(&dt_menu), 0, 0, 0),
